@@ -43,8 +43,18 @@ class Scenario:
         if starttls:
             parts.append("<starttls xmlns='%s'>%s</starttls>" % (NS_TLS, "<required/>" if required else ""))
         if mechs is not None:
-            parts.append("<mechanisms xmlns='%s'>%s</mechanisms>" %
-                         (NS_SASL, "".join("<mechanism>%s</mechanism>" % m for m in mechs)))
+            def mech(m):
+                k = self.rng.random()
+                if k < 0.03 and len(m) > 2:
+                    return "<mechanism>%s<x/>%s</mechanism>" % (m[:2], m[2:])     # text in two nodes
+                if k < 0.05:
+                    return "<mechanism>%s</mechanism><mechanism/>" % m           # followed by an empty one
+                return "<mechanism>%s</mechanism>" % m
+            ms = [mech(m) for m in mechs]
+            if mechs and self.rng.random() < 0.06:
+                ms.insert(self.rng.randrange(len(ms) + 1), self.rng.choice(["<mechanism/>", "<mechanism><x/></mechanism>",
+                                                                           "<other>PLAIN</other>"]))
+            parts.append("<mechanisms xmlns='%s'>%s</mechanisms>" % (NS_SASL, "".join(ms)))
         if bind:
             parts.append("<bind xmlns='%s'/>" % NS_BIND)
         if session is not None:
@@ -56,6 +66,12 @@ class Scenario:
                          "".join("<method>%s</method>" % m for m in compression))
         if unknown:
             parts.append("<ver xmlns='urn:xmpp:features:rosterver'/>")
+        if self.rng.random() < 0.06:
+            # look-alikes in foreign namespaces: not offers
+            parts.append(self.rng.choice(["<sm xmlns='urn:xmpp:sm:2'/>", "<bind xmlns='urn:example:bind'/>",
+                                          "<session xmlns='urn:example:session'/>", "<starttls xmlns='urn:example:tls'/>",
+                                          "<mechanisms xmlns='urn:example:sasl'><mechanism>PLAIN</mechanism></mechanisms>",
+                                          "<compression xmlns='urn:example:compress'><method>zlib</method></compression>"]))
         self.rng.shuffle(parts)
         return "<stream:features>%s</stream:features>" % "".join(parts)
 
@@ -176,6 +192,8 @@ def gen_session(rng, tier, profile="mixed"):
     cert = 1 if rng.random() < 0.1 else 0
     ops.append("new %s %s %d %s %d" % (h(jid), "-" if pw is None else h(pw), flags, ctype, cert))
     ctype0 = ctype
+    if rng.random() < 0.15:
+        ops.append("althost " + h(rng.choice(["127.0.0.1", "xmpp.other.example", "h"])))
     if rng.random() < 0.6:
         ops.append("uhandlers")
     if rng.random() < 0.3:
@@ -199,6 +217,10 @@ def gen_session(rng, tier, profile="mixed"):
             ops.append("connect" if ctype == ctype0 and rng.random() < 0.7 else "connect " + ctype)
         if rng.random() < 0.06:
             ops.append("connect " + rng.choice(["c", "k", "r"]))      # refused: not disconnected
+        if rng.random() < 0.03:
+            # the application lets go of the object while the attempt is still in progress
+            ops += rng.choice([["release"], ["run", "release"], ["run", "run", "release"]])
+            return ops
         if rng.random() < 0.1:
             f2 = rng.randrange(256)
             ops.append("setflags %d" % f2)
@@ -255,7 +277,7 @@ def one_stream(s, rng, flags, ctype, jid, pw, cert, sm_resumable):
         if k < 0.7:
             return "<<garbage&"
         if k < 0.8:
-            return "<stream:error><%s xmlns='%s'/><text xmlns='%s'>bye</text></stream:error>" % (
+            return "<stream:error><%s xmlns='%s'/><text xmlns='%s'>by<b/>e, bye</text></stream:error>" % (
                 rng.choice(["conflict", "host-unknown", "not-well-formed", "xml-not-well-formed", "bogus"]),
                 NS_STREAMS_IETF, NS_STREAMS_IETF)
         if k < 0.9:
@@ -330,10 +352,16 @@ def one_stream(s, rng, flags, ctype, jid, pw, cert, sm_resumable):
                 traffic(s, rng, False)
             return
         tried.add(m)
+        def split_text(t):
+            # (text delivered as two text nodes around a child element)
+            if rng.random() < 0.05 and len(t) > 4:
+                k = rng.randrange(1, len(t) - 1)
+                return t[:k] + "<x/>" + t[k:]
+            return t
         if m.startswith("SCRAM"):
-            send("<challenge xmlns='%s'>%s</challenge>" % (NS_SASL, scram_challenge(rng)))
+            send("<challenge xmlns='%s'>%s</challenge>" % (NS_SASL, split_text(scram_challenge(rng))))
         elif m == "DIGEST-MD5":
-            send("<challenge xmlns='%s'>%s</challenge>" % (NS_SASL, digest_challenge(rng)))
+            send("<challenge xmlns='%s'>%s</challenge>" % (NS_SASL, split_text(digest_challenge(rng))))
             if rng.random() < 0.7:
                 send("<challenge xmlns='%s'>cnNwYXV0aD1hYmM=</challenge>" % NS_SASL)
         if rng.random() < 0.75:
@@ -375,6 +403,7 @@ def one_stream(s, rng, flags, ctype, jid, pw, cert, sm_resumable):
         else:
             send("<failed xmlns='%s'/>" % NS_SM)
     send(rng.choice(["<iq type='result' id='_xmpp_bind1'><bind xmlns='%s'><jid>user@example.org/res</jid></bind></iq>" % NS_BIND] * 6 +
+                    ["<iq type='result' id='_xmpp_bind1'><bind xmlns='%s'><jid>user@exa<x/>mple.org/res</jid></bind></iq>" % NS_BIND] +
                     ["<iq type='result' id='_xmpp_bind1'/>", "<iq type='error' id='_xmpp_bind1'/>", "<iq id='_xmpp_bind1'/>"]))
     if sess == "required" or (sess is not None and rng.random() < 0.3):
         send(rng.choice(["<iq type='result' id='_xmpp_session1'/>"] * 5 + ["<iq type='error' id='_xmpp_session1'/>"]))
